@@ -7,6 +7,17 @@ import sys
 HERE = os.path.dirname(os.path.dirname(os.path.abspath(__file__)))
 
 CHECKS = {
+    "C01": dict(
+        category="exploration",
+        technique="Hypothesis-constructed OpenAPI documents x layouts/naming/format through the real generate_client; compile() of every file + fresh-interpreter import (generator blocked at the meta path) + __all__/star-import resolution; collect->bucket by root cause->validity-preserving ddmin",
+        text="Thousands of constructed specs (schema graphs with refs/allOf/oneOf/anyOf/maps/enums/nullable/formats, operations with "
+             "parameters in every location, bodies, several responses) x package depth 1..3 x embedded/shared core x 3 naming strategies "
+             "x JSON/YAML are generated and loaded in a fresh interpreter that has only httpx+cattrs. 14 root causes found so far: 7 "
+             "repaired (fix: commits), the rest listed as known findings whose triggers are excluded by construction and counted, so "
+             "that any violation on the remaining domain is reported as new. Search over a bounded size (<=5 schemas, <=4 operations).",
+        note="Defects that only show in the presence of an excluded trigger are masked until that finding is fixed; post-processing off; sizes bounded; rejections (generate_client raises) are not violations.",
+        design="§5 C01",
+    ),
     "C18": dict(
         category="exploration",
         technique="exhaustive chunking enumeration (streams <= 13 bytes) + Hypothesis event models with adversarial/random chunkings; metamorphic (split == unsplit) and reference-parser oracles",
